@@ -24,6 +24,7 @@ import (
 	"com.tuntun.rangers/node/src/common"
 	"com.tuntun.rangers/node/src/common/sha3"
 	"com.tuntun.rangers/node/src/middleware/db"
+	"com.tuntun.rangers/node/src/storage/rlp"
 	"com.tuntun.rangers/node/src/storage/trie"
 	"com.tuntun.rangers/node/src/utility"
 	"verif/harness/hx"
@@ -186,6 +187,48 @@ func (m *impl) exec1(line string) string {
 		return "n=" + strconv.Itoa(n) + sb.String()
 	case w[0] == "shape" && len(w) == 1:
 		return shapeOf(m.t)
+	case w[0] == "rlpstr" && len(w) == 2:
+		// storage/rlp encoder on a byte string, and Split of the result followed by junk
+		x, ok := arg(1)
+		if !ok {
+			return "bad-op"
+		}
+		b, err := rlp.EncodeToBytes(x)
+		if err != nil {
+			return "err-other"
+		}
+		return hx.Hex(b)
+	case w[0] == "rlplist" && len(w) >= 1:
+		var items [][]byte
+		for i := 1; i < len(w); i++ {
+			x, ok := arg(i)
+			if !ok {
+				return "bad-op"
+			}
+			items = append(items, x)
+		}
+		b, err := rlp.EncodeToBytes(items)
+		if err != nil {
+			return "err-other"
+		}
+		return hx.Hex(b)
+	case w[0] == "rlpsplit" && len(w) == 2:
+		// storage/rlp raw.go on arbitrary (mostly malformed) bytes
+		x, ok := arg(1)
+		if !ok {
+			return "bad-op"
+		}
+		k, content, rest, err := rlp.Split(x)
+		if err != nil {
+			return "split-error"
+		}
+		n, err2 := rlp.CountValues(x)
+		cnt := "count-error"
+		if err2 == nil {
+			cnt = strconv.Itoa(n)
+		}
+		kind := map[rlp.Kind]string{rlp.Byte: "byte", rlp.String: "string", rlp.List: "list"}[k]
+		return kind + " " + hx.Hex(content) + " " + hx.Hex(rest) + " " + cnt
 	case w[0] == "dbstate" && len(w) == 1:
 		// the two layers of the NodeDatabase: hashes in the memory cache, keys on disk
 		var mem [][]byte
@@ -386,6 +429,45 @@ func main() {
 		do("keccak " + hx.Hex(r.Bytes(r.Intn(300))))
 	}
 	dist["keccak"] = nk + 22
+
+	// 2b. RLP: the repository's encoder and raw splitter against the model's, directly
+	nr := hx.ArgInt(a, "rlp", 1500)
+	for i := 0; i < nr; i++ {
+		n := r.Pick(0, 1, 1, 2, 31, 32, 33, 54, 55, 56, 57, 255, 256, 257, 1000)
+		x := r.Bytes(n)
+		if n == 1 && r.Bool() {
+			x[0] = byte(r.Pick(0, 1, 0x7e, 0x7f, 0x80, 0x81, 0xff))
+		}
+		switch r.Intn(4) {
+		case 0:
+			do("rlpstr " + hx.Hex(x))
+		case 1:
+			l := "rlplist"
+			for j, m := 0, r.Intn(5); j < m; j++ {
+				l += " " + hx.Hex(r.Bytes(r.Pick(0, 1, 2, 20, 55, 56, 60)))
+			}
+			do(l)
+		default:
+			// a valid item followed by junk, or a mutated / truncated one, or noise
+			enc, _ := rlp.EncodeToBytes(x)
+			switch r.Intn(5) {
+			case 0:
+				enc = append(enc, r.Bytes(r.Intn(4))...)
+			case 1:
+				if len(enc) > 0 {
+					enc = enc[:r.Intn(len(enc))]
+				}
+			case 2:
+				if len(enc) > 0 {
+					enc[0] = byte(r.Pick(0x00, 0x7f, 0x80, 0x81, 0xb7, 0xb8, 0xb9, 0xbf, 0xc0, 0xc1, 0xf7, 0xf8, 0xf9, 0xff))
+				}
+			case 3:
+				enc = r.Bytes(1 + r.Intn(12))
+			}
+			do("rlpsplit " + hx.Hex(enc))
+		}
+	}
+	dist["rlp-direct"] = nr
 
 	// 3. malformed protocol lines: the driver must answer bad-op, never default
 	for _, l := range []string{"upd zz 01", "upd 01", "get", "get 0", "del 0g", "iter", "cachelimit 65536", "cachelimit x", "hash 1", "frob", "upd 01 02 03", "keccak 1"} {
